@@ -116,7 +116,7 @@ def build(harness_sources, out_name, flavour="san", quiet=False):
                 raise SystemExit(2)
             os.replace(tmp, exe)
         os.utime(exe, None)
-        _prune(BIN, keep=8)
+        _prune(BIN, keep=24)
         _prune(OBJ, keep=1500)
         if not quiet:
             sys.stderr.write("build_repo: %s (%d units)\n" % (exe, len(objs)))
